@@ -1,11 +1,15 @@
 (* C07/Props.v — the property theorems, nothing else.
-   Model: C07/Model.v (exception flow of drivers.run / SocketDriver._read / parseMsg / log.firewall / Irc.feedMsg).
-   Proofs: Lemmas.v (firewall, survival), Ping.v (PING answered, partial effects), Witness.v (witnesses, examples).
+   Model: C07/Model.v (exception flow of drivers.run / SocketDriver._read / parseMsg / log.firewall / Irc.feedMsg /
+   _sendIfMsgs).  Proofs: Lemmas.v (parser raises only MalformedIrcMsg, firewall, survival invariant), Echo.v (arguments
+   are cut out of the line), Ping.v (PING answered, partial effects), Full.v (full statements), Witness.v (examples).
    Handlers (dispatch, addmsg) and plugin callbacks (cbs) are arbitrary functions over an arbitrary state type St:
-   they mutate, may raise any exception class, and keep their mutation when they raise. *)
+   they mutate, may raise any exception class, and keep their mutation when they raise.
+   State of the repairs: C07.F4 (per-line try/except in SocketDriver._read) and C05.F3 (TypeError in the except clause
+   of IrcMsg.__init__) are in the tree; the tables LOOP_GUARD_PARSE and PARSE_CATCHES follow the source and
+   tables_ok pins them, so the former _on_domain/_refuted pair is now the full statement C07_loop_survives. *)
 From Coq Require Import List NArith.
 Import ListNotations.
-Require Import Base.Wire Base.PyStr C05.Model C07.Model C07.Lemmas C07.Ping C07.Witness.
+Require Import Base.Wire Base.PyStr C05.Model C07.Model C07.Lemmas C07.Ping C07.Echo C07.Full C07.Witness.
 
 (* Whatever the Irc handler (any Exception subclass), IrcState.addMsg, the in-filters and the callbacks
    (anything, BaseException included) do, Irc.feedMsg returns normally. *)
@@ -15,53 +19,50 @@ Theorem C07_firewall_total :
 Proof. exact feed_msg_none. Qed.
 Print Assumptions C07_firewall_total.
 
-(* Full statement:  forall rvs, alive (run_reads rvs init) = true /\ nothing escapes.
-   The pinned code violates it (findings F4, F3).  Proved: it holds for every chunking and every recv fault
-   sequence on the decidable domain [dom]: every complete line of the stream is blank or parses, what it makes the bot
-   echo (the PONG payload) is encodable — no lone surrogate, which a decode_raw_line restricted to strict/replace
-   guarantees (inventory DECODE_HANDLERS, checked in tables_ok) — and recv raises only what _read's except clauses name;
-   for arbitrary raising handlers/callbacks. *)
-Theorem C07_loop_survives_on_domain :
+(* drivers.parseMsg raises nothing that the per-line guard of _read does not catch. *)
+Theorem C07_parse_guarded :
+  forall vt s e, parse_msg vt s = Raise e -> caught gen.T07.LOOP_GUARD_PARSE (XE e) = true.
+Proof. exact parse_msg_guarded. Qed.
+Print Assumptions C07_parse_guarded.
+
+(* THE FULL STATEMENT.  For every byte stream, every decode function, every chunking, every sequence of recv faults
+   that _read's except clauses name (socket.timeout, SSLError, socket.error, close), every handler raising Exception
+   subclasses and every callback raising anything: the driver stays registered, drivers.run() does not crash and nothing
+   leaves driver.run().  (No hypothesis on decode_raw_line any more: since Irc._truncateMsg encodes inside the
+   firewalled takeMsg, a message that cannot be encoded is dropped there and never reaches data.encode() in
+   _sendIfMsgs.) *)
+Theorem C07_loop_survives :
   forall St vt decode dispatch addmsg cbs rvs (s : St),
-  dispatch_ok St dispatch -> out_ok St cbs -> dom vt decode rvs [] = true ->
+  dispatch_ok St dispatch -> out_ok St cbs -> recv_ok rvs = true ->
   let ms := run_reads St vt decode dispatch addmsg cbs rvs (init s) in
   alive ms = true /\ crashed ms = false /\ Forall (fun x => x = None) (escapes ms).
-Proof. exact loop_survives_on_domain. Qed.
-Print Assumptions C07_loop_survives_on_domain.
+Proof. exact loop_survives. Qed.
+Print Assumptions C07_loop_survives.
 
-(* ... and fails outside: the stream ":\n" "PING :x\n" with handlers that never raise kills the driver with
-   MalformedIrcMsg, and the PING is never answered (finding F4). *)
-Theorem C07_loop_survives_refuted :
-  forall vt, exists rvs,
-  let ms := run_reads unit vt dec0 h0 h0 [] rvs (init tt) in
-  dom vt dec0 rvs [] = false /\ dispatch_ok unit h0 /\ out_ok unit [] /\
-  alive ms = false /\ escapes ms = [Some (XE MalformedIrcMsg)] /\ sent (fst (m_p ms)) = [].
-Proof.
-  intro vt. exists w_malformed. destruct (malformed_refutes vt) as (H1 & H2 & H3 & H4).
-  repeat split; auto using h0_ok, nil_ok.
-Qed.
-Print Assumptions C07_loop_survives_refuted.
+(* The former refutation witnesses (":" then PING; "@time :x PING y" then PING): the rejected line is skipped, the
+   driver stays registered and the PING after it is answered. *)
+Theorem C07_rejected_lines_skipped :
+  forall vt,
+  (let ms := run_reads unit vt dec0 h0 h0 [] w_malformed (init tt) in
+   dom vt dec0 w_malformed [] = true /\ alive ms = true /\ escapes ms = [None; None] /\ sent (fst (m_p ms)) = [[120]]) /\
+  (let ms := run_reads unit vt dec0 h0 h0 [] w_time_ping (init tt) in
+   dom vt dec0 w_time_ping [] = true /\ alive ms = true /\ escapes ms = [None; None] /\ sent (fst (m_p ms)) = [[120]]).
+Proof. intro vt. split; [exact (malformed_skipped vt)|exact (time_skipped vt)]. Qed.
+Print Assumptions C07_rejected_lines_skipped.
 
-(* the valueless time tag leaves as TypeError (finding F3) *)
-Theorem C07_time_tag_refuted :
-  forall vt, exists rvs,
-  let ms := run_reads unit vt dec0 h0 h0 [] rvs (init tt) in
-  dom vt dec0 rvs [] = false /\ alive ms = false /\ escapes ms = [Some (XE TypeError)].
-Proof. intro vt. exists w_time. exact (time_refutes vt). Qed.
-Print Assumptions C07_time_tag_refuted.
-
-(* After any parse-clean prefix that ends on a line boundary, over a connection that is neither closed nor asked to
+(* After ANY prefix of bytes that ends on a line boundary, decoded by a function that yields no lone surrogate
+   (otherwise an unencodable PONG ahead in the queue is dropped first and delays the others), over a connection that is neither closed nor asked to
    reconnect, a PING line with a valid argument is answered: its payload is written to the socket, and the driver
    is still registered — for arbitrary raising handlers and callbacks. *)
 Theorem C07_ping_after :
   forall St vt decode dispatch addmsg cbs rvs (s : St) l m a rest,
-  quiet St dispatch addmsg cbs -> dispatch_ok St dispatch -> out_ok St cbs ->
-  forallb calm rvs = true -> dom vt decode rvs [] = true -> final_buf rvs = [] ->
+  quiet St dispatch addmsg cbs -> dispatch_ok St dispatch -> out_ok St cbs -> decode_clean decode ->
+  forallb calm rvs = true -> final_buf rvs = [] ->
   mem LFb l = false -> parse_msg vt (decode l) = Ok (Some m) ->
-  is_ping (m_command m) = true -> m_args m = a :: rest -> valid_arg a = true -> encodable a = true ->
+  is_ping (m_command m) = true -> m_args m = a :: rest -> valid_arg a = true ->
   let ms := run_reads St vt decode dispatch addmsg cbs (rvs ++ [RData (l ++ [LFb])]) (init s) in
   alive ms = true /\ crashed ms = false /\ In a (sent (fst (m_p ms))).
-Proof. exact ping_after. Qed.
+Proof. exact ping_after_full. Qed.
 Print Assumptions C07_ping_after.
 
 (* A handler that raises after mutating leaves its mutation (state-then-raise). *)
@@ -75,18 +76,19 @@ Theorem C07_partial_effects :
 Proof. exact partial_effects. Qed.
 Print Assumptions C07_partial_effects.
 
-(* Non-vacuity: always-raising handlers, a callback raising BaseException everywhere, a stream with a split PING and
-   a recv timeout meet every hypothesis of C07_loop_survives_on_domain and C07_ping_after. *)
+(* Non-vacuity: a 'replace' decoder, always-raising handlers, a callback raising BaseException everywhere, a stream
+   with a split PING and a recv timeout meet every hypothesis of C07_loop_survives and C07_ping_after. *)
 Theorem C07_hypotheses_inhabited :
+  decode_clean dec_rep /\
   dispatch_ok unit h_raise /\ out_ok unit [cb_bad] /\ quiet unit h_raise h_raise [cb_bad] /\
-  dom (fun _ => true) dec0 ex_rvs [] = true /\ forallb calm ex_rvs = true /\ final_buf ex_rvs = [] /\
-  sent (fst (m_p (run_reads unit (fun _ => true) dec0 h_raise h_raise [cb_bad] ex_rvs (init tt)))) = [[97]] /\
+  recv_ok ex_rvs = true /\ forallb calm ex_rvs = true /\ final_buf ex_rvs = [] /\
+  sent (fst (m_p (run_reads unit (fun _ => true) dec_rep h_raise h_raise [cb_bad] ex_rvs (init tt)))) = [[97]] /\
   (mem LFb ex_ping = false /\
-   exists m, parse_msg (fun _ => true) (dec0 ex_ping) = Ok (Some m) /\ is_ping (m_command m) = true /\
-             m_args m = [[98]] /\ valid_arg [98] = true /\ encodable [98] = true).
+   exists m, parse_msg (fun _ => true) (dec_rep ex_ping) = Ok (Some m) /\ is_ping (m_command m) = true /\
+             m_args m = [[98]] /\ valid_arg [98] = true).
 Proof.
-  destruct ex_domain as (H1 & H2 & H3 & H4).
-  repeat split; auto using h_raise_ok, cb_bad_ok; try apply ex_quiet; try apply ex_ping_hyp.
+  destruct ex_domain as (H1 & H2 & H3 & H4). destruct ex_domain_rep as (H5 & H6). destruct ex_ping_hyp as (H7 & _).
+  repeat split; auto using h_raise_ok, cb_bad_ok, dec_rep_clean; try apply ex_quiet; try apply ex_ping_hyp_rep.
 Qed.
 Print Assumptions C07_hypotheses_inhabited.
 
@@ -96,15 +98,13 @@ Theorem C07_base_exception_escapes :
 Proof. exact base_escapes. Qed.
 Print Assumptions C07_base_exception_escapes.
 
-(* The echo clause of the domain is sharp: outbuffer.encode() in _sendIfMsgs is outside every try.  With a
-   decode_raw_line that yields lone surrogates, the parse-clean line "PING :caf\xe9" kills the driver with
-   UnicodeEncodeError; through a 'replace' decoder the same bytes are answered. *)
-Theorem C07_surrogate_echo_escapes :
+(* What happens to an echo that cannot be encoded (a decode_raw_line yielding lone surrogates, line "PING :caf\xe9"):
+   outside the clean-echo domain, yet the driver survives; the PONG is dropped under the takeMsg firewall and the
+   PING after it is answered.  (Before C06.F19/C11.F11 this input killed the driver in _sendIfMsgs.) *)
+Theorem C07_unencodable_echo_dropped :
   forall vt,
-  (let ms := run_reads unit vt dec_se h0 h0 [] w_surrogate (init tt) in
-   parse_excs vt dec_se w_surrogate [] = [] /\ dom vt dec_se w_surrogate [] = false /\
-   alive ms = false /\ escapes ms = [Some (XE UnicodeError)] /\ sent (fst (m_p ms)) = []) /\
-  (let ms := run_reads unit vt dec_rep h0 h0 [] w_surrogate (init tt) in
-   dom vt dec_rep w_surrogate [] = true /\ alive ms = true /\ sent (fst (m_p ms)) = [[99; 97; 102; 65533]]).
-Proof. intro vt. split; [exact (surrogate_escapes vt)|exact (replace_survives vt)]. Qed.
-Print Assumptions C07_surrogate_echo_escapes.
+  let ms := run_reads unit vt dec_se h0 h0 [] w_surrogate_ping (init tt) in
+  dom vt dec_se w_surrogate_ping [] = false /\ alive ms = true /\ crashed ms = false /\
+  escapes ms = [None; None] /\ sent (fst (m_p ms)) = [[120]] /\ outq (fst (m_p ms)) = [].
+Proof. exact surrogate_dropped. Qed.
+Print Assumptions C07_unencodable_echo_dropped.
